@@ -5,6 +5,7 @@ that is exactly what a SIGKILL at that instant leaves behind (mapped stores and 
 Python-buffered bytes are not).  Every snapshot is judged against the history oracle and recovered by a real reopen."""
 import os
 import shutil
+import zlib
 import signal
 import struct
 import sys
@@ -251,10 +252,13 @@ class Ctx:
         state["ops"].append(o)
         if nm in ("add", "crashadd"):
             key = o[1]
+            # one model action, two entry points of the code (add / add_alt with the key's hashes), chosen from the position in the history
+            alt = bool(zlib.crc32(repr((len(state["ops"]), o[:2], variant)).encode()) & 1)
+            adder = (lambda: f.add_alt(f.hashes(key))) if alt else (lambda: f.add(key))
             if ctx is None and nm == "add":
-                f.add(key)
+                adder()
                 return
-            _, snaps, kills = self.traced(path, lambda: f.add(key))
+            _, snaps, kills = self.traced(path, adder)
             if ctx is not None:
                 t, pre, exp, mids, rp, sig = ctx
                 distinct = self.judge_snaps(ctx, snaps, key, table, "add")
